@@ -178,6 +178,7 @@ def run(rep: Report, tier: str) -> None:
 		ident.check('self._gen_filepath' in calls, f'symbols:{m.name}-uses-gen_filepath', m.where, f'SymbolDBPersistor.{m.name} no longer derives the file path from _gen_filepath (store and restore must agree on the identity-bearing name)')
 	rule_module_selection(rep, idx)
 	rule_eviction_pattern(rep, idx)
+	rule_content_fingerprint(rep, idx)
 	rule_key_sources_state(rep, idx)
 	rep.extra_coverage['effects_reached'] = total_effects
 	rep.extra_coverage['entries'] = [e.qualname for e in entries]
@@ -372,3 +373,69 @@ def rule_eviction_pattern(rep: Report, idx) -> None:
 		r.violate('find_oldest', (cache.relpath, verdict[1].lineno), f'find_oldest cuts the cache path at its FIRST `-` (`{unparse(verdict[1])}`): the path is absolute, so a hyphen in the working directory (`/home/me/my-project/.cache/...`) or in the cache key makes the eviction pattern `/home/me/my-*<ext>`; the files of earlier identities are never removed (when an mtime recurs with other content the stale tree is loaded: warm output != cold output) and unrelated files matching the pattern are unlinked', unparse(verdict[1]))
 	else:
 		r.ok('find_oldest', (cache.relpath, verdict[1].lineno))
+
+
+DIGESTS = {'md5', 'sha1', 'sha224', 'sha256', 'sha384', 'sha512', 'sha3_224', 'sha3_256', 'sha3_384', 'sha3_512', 'blake2b', 'blake2s'}
+CHECKSUMS = {'zlib.crc32', 'zlib.adler32', 'binascii.crc32', 'binascii.crc_hqx', 'hash', 'len', 'sum'}
+
+
+def rule_content_fingerprint(rep: Report, idx) -> None:
+	"""Module.identity() keys the symbol cache by FileLoader.hash() of the module and of what it imports; the value is whatever FileLoader.load stored for the
+	file. For `edited source => other key` the stored value must be a collision-resistant digest of ALL bytes read: a 32-bit checksum (crc32 / adler32),
+	the built-in hash(), the length, or a digest of a slice gives two different sources one key — found by a one-second search, not by bad luck — and the
+	stale symbol table of the importer is restored."""
+	import copy
+	from vlib.match import inline_simple_calls
+	r = rep.rule('C05/content-fingerprint-is-a-digest-of-all-bytes', 'the value FileLoader.hash returns is stored by load as hashlib.<md5|sha*|blake2*>(<everything f.read() returned>).hexdigest()', floor=1)
+	m = idx.mod('rogw/tranp/app/loader.py')
+	cls = m.cls('FileLoader')
+	load, hsh = (cls.method('load'), cls.method('hash')) if cls else (None, None)
+	if load is None or hsh is None:
+		r.skip('FileLoader', (m.relpath, 1), 'FileLoader.load / hash vanished')
+		return
+	# the store hash() returns from
+	rets = [n.value for n in walk_no_nested(hsh.node) if isinstance(n, ast.Return) and n.value is not None]
+	stores = {unparse(x.value) for x in rets if isinstance(x, ast.Subscript)}
+	if len(stores) != 1 or len(rets) != 1:
+		r.skip('hash', hsh.where, 'FileLoader.hash no longer returns one entry of a memo table')
+		return
+	store = stores.pop()
+	writes = [(f, n) for f in cls.methods_flat() for n in walk_no_nested(f.node) if isinstance(n, ast.Assign) and any(isinstance(t, ast.Subscript) and unparse(t.value) == store for t in n.targets)] if hasattr(cls, 'methods_flat') else \
+		[(f, n) for fs in cls.methods.values() for f in fs for n in walk_no_nested(f.node) if isinstance(n, ast.Assign) and any(isinstance(t, ast.Subscript) and unparse(t.value) == store for t in n.targets)]
+	if not writes:
+		r.skip('hash', hsh.where, f'no write of {store}[...] found in FileLoader')
+		return
+	for f, n in writes:
+		key = f'{f.name}:{store}'
+		v = inline_simple_calls(f, n.value)
+		# names bound once in the function stand for their value (content_bytes = f.read())
+		def resolve(e: ast.AST, depth: int = 0) -> ast.AST:
+			if isinstance(e, ast.Name) and depth < 4:
+				defs = [a for a in ast.walk(f.node) if isinstance(a, (ast.Assign, ast.AnnAssign)) and a.value is not None and any(isinstance(t, ast.Name) and t.id == e.id for t in (a.targets if isinstance(a, ast.Assign) else [a.target]))]
+				if len(defs) == 1:
+					return resolve(inline_simple_calls(f, defs[0].value), depth + 1)
+			return e
+		v = resolve(v)
+		calls_ = [c_ for c_ in ast.walk(v) if isinstance(c_, ast.Call)]
+		weak = [attr_chain(c_.func) for c_ in calls_ if attr_chain(c_.func) in CHECKSUMS]
+		dig = [c_ for c_ in calls_ if isinstance(c_.func, ast.Attribute) and c_.func.attr in DIGESTS and attr_chain(c_.func.value) == 'hashlib'] + \
+			[c_ for c_ in calls_ if attr_chain(c_.func) == 'hashlib.new']
+		if weak and not dig:
+			r.violate(key, (m.relpath, n.lineno), f'the content fingerprint is `{unparse(v)[:80]}` — {weak[0]} is a checksum of at most 64 bits (crc32: 32), not a collision-resistant digest: two revisions of an imported module with equal checksum (an edit in two places; found by a one-second search) give the importer the same Module.identity(), so its stale `<module>-symbols-<id>.json` is restored and the old types are emitted (warm != cold)', unparse(n)[:120])
+			continue
+		if len(dig) != 1 or not dig[0].args:
+			r.skip(key, (m.relpath, n.lineno), f'fingerprint `{unparse(v)[:80]}` is neither one hashlib digest nor a known checksum')
+			continue
+		arg = resolve(dig[0].args[-1] if attr_chain(dig[0].func) == 'hashlib.new' else dig[0].args[0])
+		if isinstance(arg, ast.Call) and isinstance(arg.func, ast.Attribute) and arg.func.attr == 'encode':
+			arg = resolve(arg.func.value)
+		whole = isinstance(arg, ast.Call) and isinstance(arg.func, ast.Attribute) and arg.func.attr == 'read' and not arg.args and not arg.keywords
+		partial = isinstance(arg, ast.Subscript) or (isinstance(arg, ast.Call) and isinstance(arg.func, ast.Attribute) and arg.func.attr in ('read', 'readline') and (arg.args or arg.func.attr == 'readline'))
+		hexed = any(isinstance(c_.func, ast.Attribute) and c_.func.attr in ('hexdigest', 'digest') and c_.func.value is dig[0] for c_ in calls_)
+		truncated = any(isinstance(s_, ast.Subscript) and isinstance(s_.slice, ast.Slice) and any(c_ is dig[0] for c_ in ast.walk(s_.value)) for s_ in ast.walk(v))
+		if partial or truncated:
+			r.violate(key, (m.relpath, n.lineno), f'the content fingerprint `{unparse(v)[:80]}` covers only part of the file / of the digest: an edit outside that part leaves Module.identity() of every importer unchanged, and the stale symbol cache is restored', unparse(n)[:120])
+		elif whole and hexed:
+			r.ok(key, (m.relpath, n.lineno))
+		else:
+			r.skip(key, (m.relpath, n.lineno), f'digest argument `{unparse(arg)[:60]}` is not recognisably everything `<file>.read()` returned')
